@@ -63,3 +63,10 @@ Example C08_leaves_examples :
   leaves_of (pmatch LInt) (Node KTuple [Node KNone []; i; Node KTuple []; Node (KDict []) []]) = [i] /\
   leaves_of (pmatch (LTuple [LInt; LInt])) (Node KList [Node KTuple [i; i]; Node (KNamed "P") [i; i]; Node KTuple [i]]) = [Node KTuple [i; i]; Node (KNamed "P") [i; i]; i].
 Proof. split; reflexivity. Qed.
+
+(* "a rejected tree binds nothing", for the PyTree check with the rollback structure read from the source *)
+From JT Require Import gen.Brackets model.SourceShape proofs.SourceShapeFacts.
+Theorem C08_check_as_in_source_is_the_model : forall st l sopt x s,
+  pytree_check_src st pytree_check_rolls_back l sopt x s = leafmatch st (LPyTree l sopt) x s.
+Proof. exact (fun st l sopt x s => pytree_check_src_true st l sopt x s). Qed.
+Print Assumptions C08_check_as_in_source_is_the_model.
